@@ -109,13 +109,15 @@ def check_case(case):
     conc3, flx3, Z3 = sut.as3d(conc), sut.as3d(flx), sut.as3d(Z)
 
     _, cfull, ffull = sut.S(q0, z, prof, dom, list(range(nz)), **kw)
+    fs0, cs0 = (0.0, 0.0) if fpm else tol.natural_scales(q0, z, prof, case["bg"])
     bit = True
     for k, l in enumerate(lv):
         if not np.all(Z3[k] == z[l]):
             out.bad(f"slice {k}: reported height {Z3[k].flat[0]!r} but level {l} is at z = {z[l]!r} (levels {lv})")
         _, c1, f1 = sut.S(q0, z, prof, dom, int(l), **kw)
         for name, got, single_, full_ in (("conc", conc3[k], c1, cfull[l]), ("flux", flx3[k], f1, ffull[l])):
-            scale = max(tol.maxabs(single_), tol.maxabs(full_), abs(case["bg"]) if name == "conc" else 0.0)
+            scale = max(tol.maxabs(single_), tol.maxabs(full_), abs(case["bg"]) if name == "conc" else 0.0,
+                        cs0 if name == "conc" else fs0)
             e1 = tol.maxabs(got - single_)
             e2 = tol.maxabs(got - full_)
             bit &= bool(e1 == 0.0 and e2 == 0.0)
